@@ -179,6 +179,10 @@ def run(chk, repo, tier):
 
     # ---------------------------------------------------------------- C06-c
     insert_rules(chk, repo)
+    # ... and what is added there is the field's own samples times the weight (their squared modulus times the weight on the
+    # intensity branch): the same slices, the weight applied once
+    from .c07 import insert_twin_rule as _insert_twin_rule
+    _insert_twin_rule(chk, repo, 'C06-c')
 
     # ---------------------------------------------------------------- C06-d
     product_rules(chk, repo)
@@ -849,9 +853,42 @@ def scalar_product_rule(chk, repo, clause='C06-d'):
            ok if tests else None, '; '.join(sorted(fmt(c)[:80] for c in tests)) or 'undecided: no test of the offsets found', f.loc())
 
 
+def overlap_rule(chk, repo, clause='C06-f'):
+    """`overlap(fields)` says whether the fields form one connected group of pixels: for two fields their extents meet; for
+    more it is what is left after reducing them (a meets b, b meets c, a and c apart is still one group) - the answer
+    agrees with what `reduce` returns.  Testing every pair is a different question."""
+    if not repo.has_func('field.overlap'):
+        return
+    fo = repo.func('field.overlap')
+    _, paths, _ = analyse(repo, fo)
+    ok, det, n = True, '', 0
+    for p in returns(paths):
+        from ..rules import literals
+        two = any(pol and isinstance(c, Poly) and c.single_atom() is not None and is_app(c.single_atom(), 'eq')
+                  and {fmt(x) for x in c.single_atom()[2]} == {'len(fields)', '2'} for c, pol in literals(p.conds))
+        seen = set()
+        for v in [p.ret] + [c for c, _pol, _n in p.conds]:
+            seen |= {a[1] for a in nf.value_atoms(v) if a[0] == 'app'} if isinstance(v, (Poly, Tup)) else set()
+        grouped = bool(seen & {'call:field._reduce', 'call:field.reduce', 'call:field._disjoint'})
+        n += 1
+        if two:
+            pair_ok = 'call:extent.intersect' in seen or grouped
+            if not pair_ok:
+                ok, det = False, f'two fields: returns {fmt(p.ret)[:80]} without comparing their extents'
+        elif not grouped:
+            pairwise = 'call:extent.intersect' in seen
+            ok = False if pairwise else (None if ok else ok)
+            det = (f'[{conds_str(p)[:60]}] returns {fmt(p.ret)[:100]}: every pair is tested, so a chain a-b-c whose ends are apart is '
+                   'reported as not overlapping although reduce() merges it into one field') if pairwise else \
+                f'undecided: [{conds_str(p)[:60]}] returns {fmt(p.ret)[:80]}'
+    chk.ob(clause, 'D-flow', fo.key, 'overlap of more than two fields is decided by reducing them to connected groups',
+           (ok and n > 0) if ok is not None else None, det or f'{n} path(s)', fo.loc())
+
+
 def disjoint_rules(chk, repo):
     """reduce / _disjoint: every (transitively) overlapping group is merged (C06-f; reused by C03-c, C07-a)."""
     # ---------------------------------------------------------------- C06-f
+    overlap_rule(chk, repo, 'C06-f')
     fd = repo.func('field._disjoint')
     _, paths, _ = analyse(repo, fd)
     rets = returns(paths)
